@@ -246,7 +246,12 @@ def ill_sum(s, rnd, h, u, t, v1, v2, variant=None):
     around 2^64 back to the input (three or four outputs, each below 2^63), or is off by one either way. Never executed."""
     bal = s.B(u, t)
     inp = rnd.choice([100, max(1, bal // 2), 1, max(1, bal)])
-    variant = variant or rnd.choice(["wrap3", "wrap4", "plus1", "minus1", "wrap3"])
+    variant = variant or rnd.choice(["wrap3", "wrap4", "plus1", "minus1", "wrap3", "huge", "hugeconv"])
+    if variant == "huge":          # adds up, but the input does not fit a signed 64-bit integer (no balance could ever cover it)
+        inp = rnd.choice([2**63, 2**63 + 12345, 2**64 - 1])
+        return s.entry(h, u, [{"t": t, "amt": inp, "to": [(v1, inp)]}])
+    if variant == "hugeconv":
+        return s.entry(h, u, [{"t": t, "amt": rnd.choice([2**63, 2**64 - 1]), "conv": "pUSD" if t != "pUSD" else "pXBT"}])
     if variant == "wrap3":
         outs = [(v1, 2**63 - 1), (v2, 2**63 - 1), (v1, inp + 2)]
     elif variant == "wrap4":
